@@ -309,6 +309,19 @@ func cases(thorough bool) []Case {
 		add([]string{tb[0], ""})
 		add([]string{" " + tb[0] + " "})
 		add([]string{"\t"})
+		// repeated names, and orders other than the table's: a list is a set of names
+		add([]string{tb[0], tb[0]})
+		if len(tb) >= 2 {
+			add([]string{tb[0], tb[0], tb[1]})
+			add([]string{tb[1], tb[0], tb[1]})
+			add([]string{tb[1], tb[0]})
+			add([]string{tb[len(tb)-1], tb[0], tb[0]})
+		}
+		if len(tb) >= 3 {
+			add([]string{tb[2], tb[0], tb[1]})
+			add([]string{tb[1], tb[1], tb[2], tb[0]})
+			add([]string{tb[0], tb[1], tb[0], tb[2], tb[1]})
+		}
 		for _, l := range subsets(tb) {
 			add(l)
 			for _, extra := range append(append([]string{}, names...), "zz") {
